@@ -6,6 +6,10 @@ MCQueries == {"", "a", "b", "c"}
 MCInitFiles == { Missing, <<>>, <<"a">>, <<"a", NL>>, <<"a", NL, NL, "b", NL>>, <<NL, "a", NL, "b">>,
                  <<"a", NL, "b", NL, "c", NL, "a", NL>>, <<NL, NL>> }
 MCMax == {1, 2, 3}
+(* the behaviours replayed on the real History also carry entries with blanks at their edges and a blank-only entry: *)
+(* an entry is what was submitted, byte for byte (only the newlines around the whole file are trimmed at load)      *)
+GenQueries == {"", "a", "b", " c", "c ", " "}
+GenInitFiles == MCInitFiles \cup { <<" a", NL, "b ", NL>>, <<"a", NL, " ">>, <<" ", NL, "a", NL>>, <<"a ", NL, " b">> }
 
 (* ---- behaviour export: hist records each step with the observation the spec predicts ---- *)
 VARIABLE hist
